@@ -185,6 +185,13 @@ func makeMeta(rng *rand.Rand) (keys, vals []string) {
 		keys = append(keys, vgirpc.MetaShmLength)
 		vals = append(vals, "junk")
 	}
+	// Domain audit: the original batch already carries the source key (e.g. a batch that
+	// was itself resolved from another segment and is forwarded). "Pointer keys replaced by
+	// the source key": the resolved batch must name the segment it was read from.
+	if rng.IntN(10) == 0 {
+		keys = append(keys, vgirpc.MetaShmSource)
+		vals = append(vals, "/some_other_segment")
+	}
 	return
 }
 
@@ -582,13 +589,15 @@ func runRoundTrip(r *mon.Run, idx int, sp *segPair, live *[]uint64) {
 		if k == vgirpc.MetaShmOffset || k == vgirpc.MetaShmLength {
 			r.Class("metadata-collides-with-pointer-keys")
 		}
+		if k == vgirpc.MetaShmSource {
+			r.Class("metadata-already-has-source-key")
+		}
 	}
 	r.Case(fmt.Sprintf("rt|%s|rows=%d|%v|%s", gen.SchemaFingerprint(schema), orig.NumRows(), sliced, strings.Join(keys, ",")))
 	if idx < 4 {
 		r.Sample(map[string]any{"arm": "round-trip", "schema": schema.String(), "rows": orig.NumRows(), "meta_keys": keys, "offset": off, "length": ln})
 	}
 }
-
 
 // runTwins writes, into the SAME segment, batches under "twin" schemas:
 // identical column names/types/nullability, differing only in schema-level
@@ -1143,7 +1152,7 @@ func main() {
 	r.Assume("a pointer whose region lies inside the allocator header is expected to be refused (header bytes are not an IPC stream)")
 	r.Assume("direct ReadBatch(offset,length) with the hostile numbers is recorded as an observation only: the statement speaks about pointers (ResolveShmBatch)")
 	req := []string{"no-dict", "dict-top", "dict-nested", "dict-top+nested", "class:zero-cols", "class:nested", "sliced-arrays", "nested-columns",
-		"rows=0", "rows>500", "with-metadata", "twin:schema-metadata", "twin:field-metadata", "twin:list-child-name", "twin:list-child-nullability", "metadata-collides-with-pointer-keys", "shipped-via-maybe-write", "empty-batch-not-shipped", "write-refused-no-fit"}
+		"rows=0", "rows>500", "with-metadata", "twin:schema-metadata", "twin:field-metadata", "twin:list-child-name", "twin:list-child-nullability", "metadata-collides-with-pointer-keys", "metadata-already-has-source-key", "shipped-via-maybe-write", "empty-batch-not-shipped", "write-refused-no-fit"}
 	for _, g := range []string{"malformed", "negative-length", "negative-offset", "overflow", "out-of-segment", "length-zero", "inside-header", "lenient-spelling", "unallocated-region", "top-level-dictionary-schema"} {
 		req = append(req, "hostile:"+g)
 	}
